@@ -26,6 +26,17 @@ PROGRAMS = ("chain", "independent", "diamond", "reductions", "fan",
             "multi_reduction_lambda")
 
 def prog_outputs(kind):
+    if kind.startswith("random:"):
+        # seeded random DAG (the generator of the kernel contracts),
+        # de-duplicated as code generation expects
+        from contracts.c07_kernel import random_program
+        d = pt.transform.deduplicate(pt.make_dict_of_named_arrays(
+            random_program(int(kind.split(":")[1]), lambda k, x: x)))
+        return {k: d[k].expr for k in d}
+    return _prog_outputs(kind)
+
+
+def _prog_outputs(kind):
     a = pt.make_placeholder("a", (4, 4), np.float64)
     b = pt.make_placeholder("b", (4, 4), np.float64)
     c = pt.make_data_wrapper(np.arange(16.).reshape(4, 4))
